@@ -245,6 +245,7 @@ impl Monitor for C01 {
          assembled by an independent assembler and executed on an independent 6502 emulator from 6 input \
          vectors; oracle = reference C interpreter (ISO promotions), a vector is judged only when the \
          8-bit-context evaluation gives the same result. distinct = by hash of the source text; \
+         Also judged: the optimiser-bait programs, and the random programs with never-selected conditional groups written into main (kind deadtext). A vector is judged only when the two evaluation modes agree in every decision and stored value. \
          non-trivial = accepted by the compiler AND executed AND at least one vector judged against the reference"
             .into()
     }
